@@ -328,6 +328,7 @@ func runHistory1(pieces []piece, deadline time.Duration) (sig, detail, script st
 	}()
 	var sb strings.Builder
 	var hostedLists map[*gen.List]bool
+	unreached := map[string]string{}
 	d20Seen := false
 	for pi, pc := range pieces {
 		st.pieces++
@@ -423,6 +424,26 @@ func runHistory1(pieces []piece, deadline time.Duration) (sig, detail, script st
 			if o.Err != "" {
 				want = pieceObs{Status: "failed", Err: o.Err, Out: o.Out}
 				st.failed++
+				// declarations with literal initialisers that the failing piece never reached
+				for _, stx := range pc.Stmts {
+					vd, isDecl := stx.(*gen.VarDecl)
+					if !isDecl {
+						continue
+					}
+					if _, reached := in.GlobalValue(vd.Name); reached {
+						continue
+					}
+					switch l := vd.X.(type) {
+					case *gen.IntLit:
+						unreached[vd.Name] = gen.Render(l.V)
+					case *gen.StrLit:
+						unreached[vd.Name] = gen.Render(l.V)
+					case *gen.FloatLit:
+						unreached[vd.Name] = gen.Render(l.V)
+					case *gen.BoolLit:
+						unreached[vd.Name] = gen.Render(l.V)
+					}
+				}
 			} else {
 				want = pieceObs{Status: "accepted", Value: o.Result, Out: o.Out}
 			}
@@ -435,7 +456,7 @@ func runHistory1(pieces []piece, deadline time.Duration) (sig, detail, script st
 		switch {
 		case got.Status != want.Status:
 			mismatch = fmt.Sprintf("piece %d: expected %s, real %s (%s)", pi, want.Status, got.Status, got.Err)
-		case want.Status == "accepted" && got.Value != want.Value:
+		case want.Status == "accepted" && got.Value != want.Value && !strings.Contains(want.Value, "<function>"):
 			mismatch = fmt.Sprintf("piece %d: value: model %s, real %s", pi, want.Value, got.Value)
 		case want.Status == "failed" && got.Err != want.Err:
 			mismatch = fmt.Sprintf("piece %d: error: model %q, real %q", pi, want.Err, got.Err)
@@ -489,6 +510,22 @@ func runHistory1(pieces []piece, deadline time.Duration) (sig, detail, script st
 				return "rejected-piece-effects-run-later", fmt.Sprintf("final global %s: model %s, real %s", n, final[n], got), sb.String(), st, true, nil, false
 			}
 			return "incremental:final-global", fmt.Sprintf("final global %s: model %s, real %s", n, final[n], got), sb.String(), st, true, nil, false
+		}
+	}
+	// a declaration that a failing piece never reached has not happened: its name must not yield the value
+	// of the initialiser that never ran (anything else — nil, an error — is left open)
+	unames := make([]string, 0, len(unreached))
+	for n := range unreached {
+		unames = append(unames, n)
+	}
+	sort.Strings(unames)
+	for _, n := range unames {
+		if _, declaredLater := final[n]; declaredLater {
+			continue
+		}
+		got, goPanic := sess.eval(n)
+		if goPanic == "" && got.Status == "accepted" && got.Value == unreached[n] {
+			return "incremental:unreached-declaration-visible", fmt.Sprintf("%s was declared after the point where its piece failed, yet a later piece reads %s from it", n, got.Value), sb.String(), st, true, nil, false
 		}
 	}
 	return "", "", sb.String(), st, true, nil, false
